@@ -13,8 +13,9 @@
         either some k in 1..|p| has a value at (first k components of p)+setting, no longer prefix of
         p has one, and v is the converted value found there;
         or no non-empty prefix of p has a value and v is the top-level reading [top c];
-   - [wf_path p]: no component contains '.', the first is not "" (every path vouch passes);
-     [join_dots p] is the dotted string of p.
+   - [proper_path s]: the string does not start with '.'; [path_of_string s]: its components
+     ("" is the empty path); [wf_path p]: no component contains '.', the first is not "";
+     [join_dots p] is the dotted string of p.  Every path vouch passes is proper.
    All theorems hold for every configuration (values present, absent, zero, empty, malformed at
    any level) and every such path. *)
 From Verif Require Import Lib.Base Model.C19_Hierarchy Proofs.C19 Check.C19 Proofs.C19_Check.
@@ -23,51 +24,66 @@ Local Open Scope list_scope.
 Notation len := List.length.
 
 (* ---- the five settings: the value used is the one at the longest prefix that has a value ---- *)
+(* For every configuration and every path string that does not start with '.' (including "", "a.",
+   "a..b"): the Go function's result is related by [resolves] to the path the string denotes. *)
 
 Theorem C19_longest_prefix_addresses :
-  forall (c : config) (p : path), wf_path p ->
-    resolves addr_has to_slice addr_top k_addresses c p (beacon_node_addresses c (join_dots p)).
+  forall (c : config) (s : string), proper_path s ->
+    resolves addr_has to_slice addr_top k_addresses c (path_of_string s) (beacon_node_addresses c s).
 Proof.
-  intros c p H. unfold beacon_node_addresses. rewrite lookup_s_join by (reflexivity || exact H).
+  intros c s H. unfold beacon_node_addresses. rewrite lookup_s_proper by (reflexivity || exact H).
   apply lookup_resolves.
 Qed.
 Print Assumptions C19_longest_prefix_addresses.
 
 Theorem C19_longest_prefix_timeout :
-  forall (c : config) (p : path), wf_path p ->
-    resolves dur_has to_duration dur_top k_timeout c p (timeout c (join_dots p)).
+  forall (c : config) (s : string), proper_path s ->
+    resolves dur_has to_duration dur_top k_timeout c (path_of_string s) (timeout c s).
 Proof.
-  intros c p H. unfold timeout. rewrite lookup_s_join by (reflexivity || exact H).
+  intros c s H. unfold timeout. rewrite lookup_s_proper by (reflexivity || exact H).
   apply lookup_resolves.
 Qed.
 Print Assumptions C19_longest_prefix_timeout.
 
 Theorem C19_longest_prefix_log_level :
-  forall (def : Z) (c : config) (p : path), wf_path p ->
-    resolves str_nonempty (level_of def) (level_top def) k_loglevel c p (log_level def c (join_dots p)).
+  forall (def : Z) (c : config) (s : string), proper_path s ->
+    resolves str_nonempty (level_of def) (level_top def) k_loglevel c (path_of_string s) (log_level def c s).
 Proof.
-  intros def c p H. unfold log_level. rewrite lookup_s_join by (reflexivity || exact H).
+  intros def c s H. unfold log_level. rewrite lookup_s_proper by (reflexivity || exact H).
   apply lookup_resolves.
 Qed.
 Print Assumptions C19_longest_prefix_log_level.
 
 Theorem C19_longest_prefix_process_concurrency :
-  forall (c : config) (p : path), wf_path p ->
-    resolves str_nonempty to_int64 conc_top k_concurrency c p (process_concurrency c (join_dots p)).
+  forall (c : config) (s : string), proper_path s ->
+    resolves str_nonempty to_int64 conc_top k_concurrency c (path_of_string s) (process_concurrency c s).
 Proof.
-  intros c p H. unfold process_concurrency. rewrite lookup_s_join by (reflexivity || exact H).
+  intros c s H. unfold process_concurrency. rewrite lookup_s_proper by (reflexivity || exact H).
   apply lookup_resolves.
 Qed.
 Print Assumptions C19_longest_prefix_process_concurrency.
 
 Theorem C19_longest_prefix_hierarchical_bool :
-  forall (var : comp) (c : config) (p : path), dot_free var = true -> wf_path p ->
-    resolves str_nonempty to_bool (bool_top var) var c p (hierarchical_bool var c (join_dots p)).
+  forall (var : comp) (c : config) (s : string), dot_free var = true -> proper_path s ->
+    resolves str_nonempty to_bool (bool_top var) var c (path_of_string s) (hierarchical_bool var c s).
 Proof.
-  intros var c p Hv H. unfold hierarchical_bool. rewrite lookup_s_join by assumption.
+  intros var c s Hv H. unfold hierarchical_bool. rewrite lookup_s_proper by assumption.
   apply lookup_resolves.
 Qed.
 Print Assumptions C19_longest_prefix_hierarchical_bool.
+
+(* Proper strings and well-formed component paths are the same thing: every proper string is the
+   dotted form of the well-formed path it denotes, and the dotted form of a well-formed path is a
+   proper string denoting that path.  (The theorems below are stated on component paths.) *)
+Theorem C19_proper_strings_are_wf_paths :
+  (forall s, proper_path s -> wf_path (path_of_string s) /\ join_dots (path_of_string s) = s) /\
+  (forall p, wf_path p -> proper_path (join_dots p) /\ path_of_string (join_dots p) = p).
+Proof.
+  split.
+  - exact proper_path_wf.
+  - intros p H. split; [apply wf_path_proper, H | apply path_of_string_join, H].
+Qed.
+Print Assumptions C19_proper_strings_are_wf_paths.
 
 (* ---- the relation is tight, and is what the check evaluates ---- *)
 
@@ -82,17 +98,15 @@ Proof. intros. apply resolves_iff_reference. Qed.
 Print Assumptions C19_reference_characterised.
 
 (* The Go recursion on the dotted string (cut at the last '.') is the recursion on components (drop
-   the last one), which is the reference — any setting. *)
+   the last one), which is the reference — any setting, any proper string. *)
 Theorem C19_string_lookup_is_reference :
   forall (V : Type) (has : raw -> bool) (conv : raw -> V) (top : config -> V) (setting : comp)
-         (c : config) (p : path),
-    dot_free setting = true -> wf_path p ->
-    lookup_s has conv top setting c (join_dots p) = longest_prefix_value has conv top setting c p
-    /\ path_of_string (join_dots p) = p.
+         (c : config) (s : string),
+    dot_free setting = true -> proper_path s ->
+    lookup_s has conv top setting c s = longest_prefix_value has conv top setting c (path_of_string s).
 Proof.
-  intros V has conv top setting c p Hs Hp. split.
-  - rewrite lookup_s_join by assumption. apply lookup_eq_reference.
-  - apply path_of_string_join, Hp.
+  intros V has conv top setting c s Hs Hp.
+  rewrite lookup_s_proper by assumption. apply lookup_eq_reference.
 Qed.
 Print Assumptions C19_string_lookup_is_reference.
 
@@ -138,6 +152,21 @@ Proof.
   rewrite !lookup_s_join by assumption. rewrite lookup_snoc. unfold valued. rewrite Hno. reflexivity.
 Qed.
 Print Assumptions C19_level_without_value_is_skipped.
+
+(* A branch below a path none of whose levels has a value - in particular one that does not exist in
+   the configuration at all - inherits the path's result. *)
+Theorem C19_unconfigured_branch_inherits :
+  forall (V : Type) (has : raw -> bool) (conv : raw -> V) (top : config -> V) (setting : comp)
+         (c : config) (p q : path),
+    dot_free setting = true -> wf_path p -> wf_path (p ++ q) ->
+    (forall j, (1 <= j <= len q)%nat -> has (get c ((p ++ firstn j q) ++ [setting])) = false) ->
+    lookup_s has conv top setting c (join_dots (p ++ q)) = lookup_s has conv top setting c (join_dots p).
+Proof.
+  intros V has conv top setting c p q Hs Hp Hpq Hno.
+  rewrite !lookup_s_join by assumption.
+  exact (lookup_app_unvalued has conv top setting c p q Hno).
+Qed.
+Print Assumptions C19_unconfigured_branch_inherits.
 
 (* Monotonicity: if level k of the path has a value, the result depends only on the candidate keys
    of levels k..|p| ... *)
